@@ -39,6 +39,7 @@ import SigModel.Model.WalRecover
 import SigModel.Lemmas.C10R
 import SigModel.Lemmas.C10Rb
 import SigModel.Lemmas.C10Rc
+import SigModel.Lemmas.C10Rd
 
 namespace SigModel.Props.C10
 open SigModel.Wal
@@ -154,17 +155,18 @@ had completed, in order, and nothing else".  The framing theorems above deliver,
 completely appended blocks; here a WAL directory is a list of (file name, completed blocks).  `run cap shard h`
 is the writer of one shard after history `h` (ingest / WAL flush with or without roll-over / block rotation /
 segment rotation, the size test against MAX_WAL_FILE_SIZE_BYTES being an input of each append), a crash is the end
-of the history, `recover` is RecoverWALData as coded (directory order, grouping by the key string, ONE block per
-group, ONE flush per group), `specBlock` is the specification: the datapoints of a block whose append or block
-rotation had completed, in ingest order — no files, names or buffers in it.
-uint64 bounds on segment/block numbers are hypotheses (strconv.ParseUint). -/
+of the history, `recover` is RecoverWALData as coded AFTER the repairs c10-1, c10-2, c10-3 (directory scan, grouping
+by the key string, the files of a group sorted by their WAL index, a group whose first WAL file is gone only deleted,
+ONE block and ONE flush per group, WAL files deleted after the flush), `specBlock` is the specification: the
+datapoints of a block whose append or block rotation had completed, in ingest order — no files, names or buffers.
+The behaviour BEFORE the repairs is kept as `groupsOld`, `recoverOld`, `recoverActionsOld`, … with the counterexample
+theorems that made the repairs necessary (`…_old_counterexample`) and the partial theorems that held for it.
+uint64 bounds on segment / block numbers and WAL indices are hypotheses (strconv.ParseUint). -/
 namespace SigModel.Props.C10
 open SigModel.Wal (Dp)
 open SigModel.WalRecover
 
-/-- guard: at the crash the open block has at most 10 WAL files (indices 0..9) -/
-def fewWalFiles (cap shard : Nat) (h : List Op) : Prop := (run cap shard h).walIdx < 10
-instance (cap shard : Nat) (h : List Op) : Decidable (fewWalFiles cap shard h) := by unfold fewWalFiles; infer_instance
+/-! ### crash BETWEEN two operations -/
 
 /-- the full-strength statement of the recovery property for one shard: for EVERY writer history ended by a crash,
 after RecoverWALData every block (segment, block number) on disk holds exactly the datapoints whose WAL append or
@@ -172,27 +174,30 @@ block rotation had completed, in ingest order (blocks that never had a completed
 def RecoverExact : Prop :=
   ∀ (cap shard : Nat) (h : List Op), 1 ≤ cap →
     (run cap shard h).seg < 18446744073709551616 → (run cap shard h).blkNum < 18446744073709551616 →
+    (run cap shard h).walIdx < 18446744073709551616 →
     ∀ k : Key, lookup k (diskAfterRecovery cap shard h) = specBlock cap shard h k
 
-/-- C10.R1 `recover_exact` (PARTIAL: guard `fewWalFiles`).  For every history after which the open block has at
-most 10 WAL files: recovered + durable blocks = exactly the completed datapoints per (segment, block), in order.
-This covers: nothing of a rotated block is touched, nothing buffered-but-not-appended comes back, the first WAL
-of a new segment/block carries the new ids, several files of one block are concatenated into ONE block. -/
-theorem recover_exact (cap shard : Nat) (h : List Op) (_hcap : 1 ≤ cap) (hg : fewWalFiles cap shard h)
-    (hs : (run cap shard h).seg < 18446744073709551616) (hb : (run cap shard h).blkNum < 18446744073709551616) (k : Key) :
-    lookup k (diskAfterRecovery cap shard h) = specBlock cap shard h k :=
-  SigModel.Lemmas.C10R.recover_exact cap shard h hg hs hb k
+/-- C10.R1 `recover_exact`, FULL strength (any number of WAL files per block).  This covers: nothing of a rotated
+block is touched, nothing buffered-but-not-appended comes back, the first WAL of a new segment/block carries the new
+ids, several files of one block are concatenated into ONE block in the order in which they were written. -/
+theorem recover_exact : RecoverExact := by
+  intro cap shard h _ hs hb hi k
+  exact SigModel.Lemmas.C10R.recover_exact_full cap shard h hs hb hi k
 
-/-- the guard is satisfiable with data in several files, a rotated block and a rotated segment -/
-example : fewWalFiles 2 0 [.ingest 0 ⟨1, 1, 1⟩ false, .walFlush true, .ingest 0 ⟨2, 2, 1⟩ false, .blockRotate,
-    .ingest 0 ⟨3, 3, 1⟩ false, .segRotate, .ingest 0 ⟨4, 4, 1⟩ true, .walFlush true, .ingest 0 ⟨5, 5, 1⟩ false, .walFlush false] := by
-  decide
+/-- non-vacuity + the former counterexample history (13 WAL files) now comes back in order -/
+example : (lookup (dec 0, 0, 0) (diskAfterRecovery 100 0 SigModel.Lemmas.C10R.h11)).map (·.ts)
+    = [100, 101, 102, 103, 104, 105, 106, 107, 108, 109, 110, 111] := SigModel.Lemmas.C10R.h11_recovered_fixed
 
-/-- C10.R1' the full statement is FALSE for the code as it is: the files of one block are replayed in directory
-(lexical) order, `…_10.wal` before `…_2.wal`.  Witness `h11`: 12 appends, each followed by a roll-over; the block
-comes back as 100,101,110,111,102,… instead of 100,…,111.  (Replayed on the real code: suite walrecover, known
-finding sig=walrecover/replay-order.) -/
-theorem recover_exact_counterexample : ¬ RecoverExact := by
+/-- the same statement for RecoverWALData BEFORE the repair c10-1 (files of a group in directory order) -/
+def RecoverExactOld : Prop :=
+  ∀ (cap shard : Nat) (h : List Op), 1 ≤ cap →
+    (run cap shard h).seg < 18446744073709551616 → (run cap shard h).blkNum < 18446744073709551616 →
+    ∀ k : Key, lookup k (diskAfterRecoveryOld cap shard h) = specBlock cap shard h k
+
+/-- C10.R1-old FALSE before the repair: `…_10.wal` was replayed before `…_2.wal`.  Witness `h11`: 12 appends, each
+followed by a roll-over; the block came back as 100,101,110,111,102,… (repaired by c10-1; the suite's detector
+sig=walrecover/replay-order stays). -/
+theorem recover_exact_old_counterexample : ¬ RecoverExactOld := by
   intro hall
   have h := hall 100 0 SigModel.Lemmas.C10R.h11 (by decide) (by decide +kernel) (by decide +kernel) (dec 0, 0, 0)
   have hc := SigModel.Lemmas.C10R.h11_recovered
@@ -201,53 +206,67 @@ theorem recover_exact_counterexample : ¬ RecoverExact := by
   revert this
   decide
 
-/-- C10.R1'' what survives WITHOUT the guard: every completed datapoint is recovered exactly once into its own
-block and nothing else — the recovered block is a permutation of the specification (only the order can be wrong). -/
-theorem recover_perm (cap shard : Nat) (h : List Op)
+/-- guard of the old partial theorems: at the crash the open block has at most 10 WAL files (indices 0..9) -/
+def fewWalFiles (cap shard : Nat) (h : List Op) : Prop := (run cap shard h).walIdx < 10
+instance (cap shard : Nat) (h : List Op) : Decidable (fewWalFiles cap shard h) := by unfold fewWalFiles; infer_instance
+
+/-- what held before the repair: exactness under the guard, and a permutation without it -/
+theorem recover_exact_old_partial (cap shard : Nat) (h : List Op) (hg : fewWalFiles cap shard h)
     (hs : (run cap shard h).seg < 18446744073709551616) (hb : (run cap shard h).blkNum < 18446744073709551616) (k : Key) :
-    (lookup k (diskAfterRecovery cap shard h)).Perm (specBlock cap shard h k) :=
+    lookup k (diskAfterRecoveryOld cap shard h) = specBlock cap shard h k :=
+  SigModel.Lemmas.C10R.recover_exact cap shard h hg hs hb k
+
+theorem recover_perm_old (cap shard : Nat) (h : List Op)
+    (hs : (run cap shard h).seg < 18446744073709551616) (hb : (run cap shard h).blkNum < 18446744073709551616) (k : Key) :
+    (lookup k (diskAfterRecoveryOld cap shard h)).Perm (specBlock cap shard h k) :=
   SigModel.Lemmas.C10R.recover_perm cap shard h hs hb k
 
-/-- the full-strength statement about the replay ORDER: the WAL files found after the crash form one group and are
-replayed in the order in which the writer created them -/
-def ReplayInOrder : Prop :=
+/-- C10.R2 `replay_in_order`, FULL strength: the WAL files found after the crash form one group and are replayed in
+the order in which the writer created them, however many there are -/
+theorem replay_in_order (cap shard : Nat) (h : List Op)
+    (hs : (run cap shard h).seg < 18446744073709551616) (hb : (run cap shard h).blkNum < 18446744073709551616)
+    (hi : (run cap shard h).walIdx < 18446744073709551616) :
+    (groups (dirAfter cap shard h)).map (·.files) = [dirAfter cap shard h] :=
+  SigModel.Lemmas.C10R.replay_in_order_full cap shard h hs hb hi
+
+def ReplayInOrderOld : Prop :=
   ∀ (cap shard : Nat) (h : List Op),
     (run cap shard h).seg < 18446744073709551616 → (run cap shard h).blkNum < 18446744073709551616 →
-    (groups (dirAfter cap shard h)).map (·.files) = [dirAfter cap shard h]
+    (groupsOld (dirAfter cap shard h)).map (·.files) = [dirAfter cap shard h]
 
-/-- C10.R2 `replay_in_order` is FALSE with more than 10 files of one block -/
-theorem replay_in_order_counterexample : ¬ ReplayInOrder := by
+/-- C10.R2-old FALSE before the repair with more than 10 files of one block -/
+theorem replay_in_order_old_counterexample : ¬ ReplayInOrderOld := by
   intro hall
   have h := hall 100 0 SigModel.Lemmas.C10R.h11 (by decide +kernel) (by decide +kernel)
   have hc := SigModel.Lemmas.C10R.h11_replay_order
-  have h2 : (groups (dirAfter 100 0 SigModel.Lemmas.C10R.h11)).map (fun g => g.files.map (fun f => String.ofList f.1))
-      = ((groups (dirAfter 100 0 SigModel.Lemmas.C10R.h11)).map (·.files)).map (fun fs => fs.map (fun f => String.ofList f.1)) := by
+  have h2 : (groupsOld (dirAfter 100 0 SigModel.Lemmas.C10R.h11)).map (fun g => g.files.map (fun f => String.ofList f.1))
+      = ((groupsOld (dirAfter 100 0 SigModel.Lemmas.C10R.h11)).map (·.files)).map (fun fs => fs.map (fun f => String.ofList f.1)) := by
     simp only [List.map_map, Function.comp_def]
   rw [h2, h] at hc
   revert hc
   decide +kernel
 
-/-- C10.R2 (partial) with at most 10 files the directory order IS the creation order -/
-theorem replay_in_order_partial (cap shard : Nat) (h : List Op) (hg : fewWalFiles cap shard h)
+theorem replay_in_order_old_partial (cap shard : Nat) (h : List Op) (hg : fewWalFiles cap shard h)
     (hs : (run cap shard h).seg < 18446744073709551616) (hb : (run cap shard h).blkNum < 18446744073709551616) :
-    (groups (dirAfter cap shard h)).map (·.files) = [dirAfter cap shard h] :=
+    (groupsOld (dirAfter cap shard h)).map (·.files) = [dirAfter cap shard h] :=
   SigModel.Lemmas.C10R.replay_order_of_few cap shard h hg hs hb
 
 /-- C10.R3 `recover_flushes_once_per_block` (the structural fact whose violation is "one flush per WAL FILE"):
 for EVERY directory content — any file names, parsable or not — the groups have pairwise different keys, and
 recovery performs at most one flushBlock per group.  (`recover` flushes per GROUP by definition; that the code
-does so is tied by the correspondence run and by the call-order fact RecoverWALData.order.) -/
+does so is tied by the correspondence run and by the call-order fact C10R.RecoverWALData.order.) -/
 theorem recover_flushes_once_per_block (d : RawDir) :
     ((groups d).map (fun g => g.info.key)).Nodup ∧ (recover d).length ≤ (groups d).length :=
-  ⟨SigModel.Lemmas.C10R.groups_keys_nodup d, SigModel.Lemmas.C10R.recover_length_le d⟩
+  ⟨SigModel.Lemmas.C10R.groups_keys_nodup_full d, SigModel.Lemmas.C10R.recover_length_le_full d⟩
 
 /-- C10.R3' after a crash of the writer, recovery performs at most ONE flush, and only into the block that was
-open at the crash — whatever the replay order is (no guard): a block rotated before the crash is never rewritten. -/
+open at the crash: a block rotated before the crash is never rewritten. -/
 theorem recover_only_open_block (cap shard : Nat) (h : List Op)
-    (hs : (run cap shard h).seg < 18446744073709551616) (hb : (run cap shard h).blkNum < 18446744073709551616) :
+    (hs : (run cap shard h).seg < 18446744073709551616) (hb : (run cap shard h).blkNum < 18446744073709551616)
+    (hi : (run cap shard h).walIdx < 18446744073709551616) :
     (recover (dirAfter cap shard h)).length ≤ 1 ∧
       ∀ kv ∈ recover (dirAfter cap shard h), kv.1 = (dec shard, (run cap shard h).seg, (run cap shard h).blkNum) :=
-  SigModel.Lemmas.C10R.recover_only_open_block cap shard h hs hb
+  SigModel.Lemmas.C10R.recover_only_open_block_full cap shard h hs hb hi
 
 /-- C10.R4 `new_segment_wal_has_new_id`: after EVERY history — in particular right after a segment rotation — the
 WAL files that exist are exactly index 0..currentWALIndex of the OPEN (segment, block) of this shard: the first WAL
@@ -263,61 +282,79 @@ example : (run 2 0 [.ingest 0 ⟨1, 1, 1⟩ false, .walFlush true, .segRotate]).
     = [{ shard := 0, seg := 1, blk := 0, idx := 0 }] := by decide
 
 /-- C10.R5 the file names the writer produces are parsed back by extractWALFileInfo's parser to their shard,
-segment and block, the key being `<shard>_<seg>_<blk>` (the WAL index is not looked at). -/
+segment and block, the key being `<shard>_<seg>_<blk>`, and by walFileIndex to their WAL index. -/
 theorem parseName_render (f : WalName) (hs : f.seg < 18446744073709551616) (hb : f.blk < 18446744073709551616) :
     parseName (render f) = some { mId := dec f.shard, seg := f.seg, blk := f.blk,
                                   key := dec f.shard ++ '_' :: (dec f.seg ++ '_' :: dec f.blk) } :=
   SigModel.Lemmas.C10R.parseName_render f hs hb
 
+theorem walIndexOf_render (f : WalName) (h : f.idx < 18446744073709551616) : walIndexOf (render f) = f.idx :=
+  SigModel.Lemmas.C10R.walIndexOf_render f h
+
 /-! ### crash points INSIDE an operation (quantifier of the property: "every instruction boundary of the WAL
 append/rotate/recover code").  The steps of an operation are the ones whose completion is visible on disk. -/
 
 /-- block files after: the writer dies inside a block-rotation pass right after `m` completed steps of rotateBlock
-(flushBlock ; DeleteWAL of every WAL file of the block, in creation order ; initNewDpWal), restart recovers completely -/
+(flushBlock ; DeleteWAL of every WAL file of the block, oldest first ; initNewDpWal), restart recovers completely -/
 def diskAfterRotateCrash (cap shard : Nat) (h : List Op) (m : Nat) : Disk :=
   let st := blockRotateCrash m (run cap shard h)
   applyFlushes st.durable (recover (rawOf st.files))
 
-/-- full strength: wherever rotateBlock is interrupted, every completed datapoint is still in its block afterwards
-(the datapoints that were only buffered may or may not be there: the completed ones are a PREFIX of the block) -/
-def BlockRotationCrashSafe : Prop :=
-  ∀ (cap shard : Nat) (h : List Op) (m : Nat) (k : Key), specBlock cap shard h k <+: lookup k (diskAfterRotateCrash cap shard h m)
+/-- … with RecoverWALData as it was before the repair c10-3 -/
+def diskAfterRotateCrashOld (cap shard : Nat) (h : List Op) (m : Nat) : Disk :=
+  let st := blockRotateCrash m (run cap shard h)
+  applyFlushes st.durable (recoverOld (rawOf st.files))
 
-/-- C10.R7 FALSE for the code as it is: killed after flushBlock and ONE of two DeleteWALs, the complete block file is
-rebuilt by recovery from the leftover WAL file alone (replayed on the real code: known finding
-sig=walrecover/crash-in-block-rotation/completed-append-lost). -/
-theorem block_rotation_crash_safe_counterexample : ¬ BlockRotationCrashSafe := by
+/-- C10.R7 `block_rotation_crash_safe`, FULL strength: wherever rotateBlock is interrupted, every completed datapoint
+is still in its block afterwards, in order (the datapoints that were only buffered may or may not be there: the
+completed ones are a PREFIX of the block).  Leftover WAL files of a block that is complete on disk form a group
+without its first WAL file, which recovery only deletes. -/
+theorem block_rotation_crash_safe (cap shard : Nat) (h : List Op) (m : Nat)
+    (hs : (run cap shard h).seg < 18446744073709551616) (hb : (run cap shard h).blkNum < 18446744073709551616)
+    (hi : (run cap shard h).walIdx < 18446744073709551616) (k : Key) :
+    specBlock cap shard h k <+: lookup k (diskAfterRotateCrash cap shard h m) :=
+  SigModel.Lemmas.C10R.block_rotation_crash_safe cap shard h m hs hb hi k
+
+def BlockRotationCrashSafeOld : Prop :=
+  ∀ (cap shard : Nat) (h : List Op) (m : Nat) (k : Key), specBlock cap shard h k <+: lookup k (diskAfterRotateCrashOld cap shard h m)
+
+/-- C10.R7-old FALSE before the repair: killed after flushBlock and ONE of two DeleteWALs, the complete block file was
+rebuilt by recovery from the leftover WAL file alone (repaired by c10-3; detector
+sig=walrecover/crash-in-block-rotation/completed-append-lost stays). -/
+theorem block_rotation_crash_safe_old_counterexample : ¬ BlockRotationCrashSafeOld := by
   intro hall
   have h := hall 1000 0 SigModel.Lemmas.C10R.hx 2 (dec 0, 0, 0)
   have hc := SigModel.Lemmas.C10R.hx_rotate_crash
-  have e : diskAfterRotateCrash 1000 0 SigModel.Lemmas.C10R.hx 2 = SigModel.Lemmas.C10R.diskAfterRotateCrash 1000 0 SigModel.Lemmas.C10R.hx 2 := rfl
+  have e : diskAfterRotateCrashOld 1000 0 SigModel.Lemmas.C10R.hx 2 = SigModel.Lemmas.C10R.diskAfterRotateCrashOld 1000 0 SigModel.Lemmas.C10R.hx 2 := rfl
   rw [e, hc.1, hc.2] at h
   revert h
   decide
 
-/-- guard: only flushBlock completed (m = 1), or every WAL file of the block is already deleted -/
+/-- guard of the old partial theorem: only flushBlock completed (m = 1), or every WAL file of the block is deleted -/
 def rotateCrashGuard (cap shard : Nat) (h : List Op) (m : Nat) : Prop := m = 1 ∨ (run cap shard h).files.length < m
 
-/-- C10.R7 (partial) under that guard (and at most 10 WAL files) the completed datapoints of every block survive an
-interrupted block rotation, in order -/
-theorem rotate_crash_partial (cap shard : Nat) (h : List Op) (m : Nat) (hm : rotateCrashGuard cap shard h m)
+theorem rotate_crash_old_partial (cap shard : Nat) (h : List Op) (m : Nat) (hm : rotateCrashGuard cap shard h m)
     (hg : fewWalFiles cap shard h)
     (hs : (run cap shard h).seg < 18446744073709551616) (hb : (run cap shard h).blkNum < 18446744073709551616) (k : Key) :
-    specBlock cap shard h k <+: lookup k (diskAfterRotateCrash cap shard h m) :=
+    specBlock cap shard h k <+: lookup k (diskAfterRotateCrashOld cap shard h m) :=
   SigModel.Lemmas.C10R.rotate_crash_partial cap shard h m hm hg hs hb k
 
-example : rotateCrashGuard 1000 0 SigModel.Lemmas.C10R.hx 1 ∧ rotateCrashGuard 1000 0 SigModel.Lemmas.C10R.hx 3 := by
-  constructor <;> (unfold rotateCrashGuard; decide +kernel)
+/-- C10.R8 `recovery_crash_safe`, FULL strength: wherever the FIRST restart's RecoverWALData is interrupted (after `m`
+completed steps: flushBlock of the group, then deleteWalFile of each file, oldest first), a second restart ends with
+exactly the completed datapoints on disk -/
+theorem recovery_crash_safe (cap shard : Nat) (h : List Op) (m : Nat)
+    (hs : (run cap shard h).seg < 18446744073709551616) (hb : (run cap shard h).blkNum < 18446744073709551616)
+    (hi : (run cap shard h).walIdx < 18446744073709551616) (k : Key) :
+    lookup k (diskAfterCrashedRecovery m (dirAfter cap shard h) (durableBlocks cap shard h)) = specBlock cap shard h k :=
+  SigModel.Lemmas.C10R.recovery_crash_safe cap shard h m hs hb hi k
 
-/-- full strength: wherever the FIRST restart's RecoverWALData is interrupted (after `m` completed steps: deleteWalFile
-of each file, then flushBlock of the group), a second restart ends with exactly the completed datapoints on disk -/
-def RecoveryCrashSafe : Prop :=
+def RecoveryCrashSafeOld : Prop :=
   ∀ (cap shard : Nat) (h : List Op) (m : Nat) (k : Key), fewWalFiles cap shard h →
-    lookup k (diskAfterCrashedRecovery m (dirAfter cap shard h) (durableBlocks cap shard h)) = specBlock cap shard h k
+    lookup k (diskAfterCrashedRecoveryOld m (dirAfter cap shard h) (durableBlocks cap shard h)) = specBlock cap shard h k
 
-/-- C10.R8 FALSE for the code as it is: RecoverWALData deletes each WAL file before the rebuilt block is flushed
-(replayed on the real code: known finding sig=walrecover/crash-in-recovery/completed-append-lost). -/
-theorem recovery_crash_safe_counterexample : ¬ RecoveryCrashSafe := by
+/-- C10.R8-old FALSE before the repair: RecoverWALData deleted each WAL file before the rebuilt block was flushed
+(repaired by c10-2; detector sig=walrecover/crash-in-recovery/completed-append-lost stays). -/
+theorem recovery_crash_safe_old_counterexample : ¬ RecoveryCrashSafeOld := by
   intro hall
   have h := hall 1000 0 SigModel.Lemmas.C10R.hx 2 (dec 0, 0, 0) (by unfold fewWalFiles; decide +kernel)
   have hc := SigModel.Lemmas.C10R.hx_recover_crash
@@ -326,19 +363,15 @@ theorem recovery_crash_safe_counterexample : ¬ RecoveryCrashSafe := by
   revert h
   decide
 
-/-- guard: the restart died before the first step of RecoverWALData or after its last one -/
+/-- guard of the old partial theorem: the restart died before its first step or after its last one -/
 def recoverCrashGuard (cap shard : Nat) (h : List Op) (m : Nat) : Prop :=
-  m = 0 ∨ (recoverActions (dirAfter cap shard h)).length ≤ m
+  m = 0 ∨ (recoverActionsOld (dirAfter cap shard h)).length ≤ m
 
-/-- C10.R8 (partial) -/
-theorem recover_crash_partial (cap shard : Nat) (h : List Op) (m : Nat) (hm : recoverCrashGuard cap shard h m)
+theorem recover_crash_old_partial (cap shard : Nat) (h : List Op) (m : Nat) (hm : recoverCrashGuard cap shard h m)
     (hg : fewWalFiles cap shard h)
     (hs : (run cap shard h).seg < 18446744073709551616) (hb : (run cap shard h).blkNum < 18446744073709551616) (k : Key) :
-    lookup k (diskAfterCrashedRecovery m (dirAfter cap shard h) (durableBlocks cap shard h)) = specBlock cap shard h k :=
+    lookup k (diskAfterCrashedRecoveryOld m (dirAfter cap shard h) (durableBlocks cap shard h)) = specBlock cap shard h k :=
   SigModel.Lemmas.C10R.recover_crash_partial cap shard h m hm hg hs hb k
-
-example : recoverCrashGuard 1000 0 SigModel.Lemmas.C10R.hx 0 ∧ recoverCrashGuard 1000 0 SigModel.Lemmas.C10R.hx 3 := by
-  constructor <;> (unfold recoverCrashGuard; decide +kernel)
 
 /-- C10.R6 the Oracle's shortcut for generated bulk loads (`ingestMany`) is the step-by-step model -/
 theorem ingestMany_eq_foldl (cap name : Nat) (roll : Bool) (ds : List Dp) (st : WState)
